@@ -263,6 +263,25 @@ func (c *Ctx) compactCase(ns share.Namespace, txs [][]byte, allRanges bool) {
 		if !eqTxs(parsed, txs) {
 			c.violate("C09", "", fmt.Sprintf("ParseTxs(Export()) returned %d txs, %d were written (or contents differ)", len(parsed), len(txs)), out, c.caseOps)
 		}
+		// the same shares as they arrive from storage or the network: windows of one contiguous buffer,
+		// parsed twice (the second parse sees whatever the first one left behind)
+		if n > 0 {
+			flat := bytes.Join(raw, nil)
+			wins := make([][]byte, n)
+			for k := range wins {
+				wins[k] = flat[k*512 : (k+1)*512]
+			}
+			if wsh, werr := share.FromBytes(wins); werr == nil {
+				for pass := 1; pass <= 2; pass++ {
+					wo, wp, _ := safeParseTxs(wsh)
+					c.oracle()
+					if !eqTxs(wp, txs) {
+						c.violate("C09", "", fmt.Sprintf("ParseTxs on the exported shares laid out in one contiguous buffer (pass %d) returned %d txs, %d were written (or contents differ)", pass, len(wp), len(txs)), wo, c.caseOps)
+						break
+					}
+				}
+			}
+		}
 		if int(seqLen) != T {
 			c.violate("C09", "", fmt.Sprintf("sequence length field %d != %d length-prefixed bytes written", seqLen, T), "", c.caseOps)
 		}
